@@ -57,6 +57,9 @@ def raised_by_the_code_under_test(e):
     """'file:line in function' when the INNERMOST frame of the exception's traceback is code of the repository under test (or the
     outsourcer code builder driven by it) and no frame of a sidecar contract lies below it; else None"""
     import traceback
+    if isinstance(e, SyntaxError) and (e.filename or '<unknown>').startswith('<'):
+        # text EMITTED by the generator (the only thing the checks compile from a string) is not valid python
+        return f'emitted source is not valid python: {e.msg} at line {e.lineno}: {(e.text or "").strip()[:80]}'
     tb = traceback.extract_tb(e.__traceback__)
     if not tb:
         return None
@@ -268,5 +271,9 @@ def match_known(known, o):
     for k in known:
         m = k['match']
         if re.search(m['unit'], o.unit) and re.search(m['obligation'], o.name):
+            # optional: the finding is tied to the PATH on which the obligation fails (the sequence of branch / child events of the failing
+            # VC), so that the same clause failing on another path - a different violation - is still reported
+            if 'path' in m and not re.search(m['path'], ' '.join(map(str, o.path or []))):
+                continue
             return k
     return None
